@@ -52,6 +52,7 @@ PoolFor(ty, big) ==
     CASE ty = "any"  -> Leaves(big) \cup D1(big)
       [] ty = "leaf" -> Leaves(big)
       [] ty = "tiny" -> Tiny
+      [] ty = "key"  -> { x, S1, LP }
       [] ty = "rnd"  -> {}          \* rand mode: see RandPool
 
 RECURSIVE FirstHoleTy(_)
@@ -163,6 +164,46 @@ SigmasBig == { << NX(y), NY(x) >>, << VX(y), NX(KI(2)) >>, << ES1(x), NX(KI(2)) 
 \* maps under which even an untouched tree is driven (root identity)
 IdleSigmas == { << >>, << NX(y) >>, << ES1(x), NX(KI(2)) >> }
 
+\* ---- round 4: a node directly below a node of its OWN kind --------------------------------
+\* Collapsing / flattening / associativity short cuts of a traversal live exactly there
+\* ("~~a is a", "a sum in a sum is one sum", "a CSE of a CSE is one CSE"), and what is exact for
+\* one kind is wrong for its sibling (not not v is bool(v), not v).  The nest is generated
+\*   (a) pre-existing in the tree, with a key underneath so that every level is rebuilt
+\*       (NestSkel: the unary kinds in all four combinations, three deep, below other nodes;
+\*       every n-ary / binary kind, CSE, If, Call inside itself), and
+\*   (b) CREATED by the replacement: the inserted value has the kind of the node it is inserted
+\*       under (KindSigmas: one value per node kind, met by every root kind with the key in
+\*       every child position; swap, self reference, Variable / Subscript / Lookup keys).
+\* The box of environments binds x, y, z to integers other than 0 / 1 and to rationals, so a
+\* truth value in place of the operand (or the reverse) changes the value.
+LNot(a) == U("LogNot", a)   BNot(a) == U("BitNot", a)
+K2 == HoleT("key")
+NestSkel(AA, LL, MM, KK) ==
+       { U(k1, U(k2, AA)) : k1 \in UnKinds, k2 \in UnKinds }
+  \cup { U(k1, U(k2, U(k1, LL))) : k1 \in UnKinds, k2 \in UnKinds }
+  \cup { N("Sum", << KI(3), U(k, U(k, LL)) >>) : k \in UnKinds }
+  \cup { IfE(U(k, U(k, KK)), MM, z) : k \in UnKinds } \cup { U(k, N("LogAnd", << U(k, KK), bb >>)) : k \in UnKinds }
+  \cup { N(k, << N(k, << KK, y >>), z >>) : k \in {"Sum", "Product"} \cup NaryOther }
+  \cup { N(k, << z, N(k, << y, KK >>) >>) : k \in {"Sum", "Product", "LogAnd", "LogOr", "Min"} }
+  \cup { B(k, B(k, KK, y), KI(2)) : k \in BinArith } \cup { B(k, KI(2), B(k, y, KK)) : k \in {"Power", "Quotient"} }
+  \cup { CSE0(CSE0(LL)), IfE(IfE(bb, KK, y), z, KI(2)), IfE(bb, IfE(bb, y, KK), z),
+         Call(ff, << Call(ff, << KK >>) >>), Cmp(Cmp(KK, "<", y), "==", z),
+         B("Sub", B("Sub", tt, KK), KI(0)), Look(Look(KK, "p"), "q") }
+
+KindVals ==
+       { LNot(y), BNot(y), LNot(LNot(y)), BNot(BNot(y)), LNot(BNot(y)), BNot(LNot(y)) }
+  \cup { N(k, << y, z >>) : k \in {"Sum", "Product"} \cup NaryOther }
+  \cup { B(k, y, KI(2)) : k \in BinArith }
+  \cup { CSE0(y), IfE(bb, y, z), Cmp(y, "<", z), Call(ff, << y >>) }
+KindSigmas == { << NX(v) >> : v \in KindVals } \cup
+              { << NX(LNot(y)), NY(x) >>,                 \* a swap that negates
+                << NX(LNot(x)) >>, << VX(BNot(x)) >>,     \* self reference: inserted, not mapped again
+                << ES1(LNot(x)) >>, << ELP(BNot(LP)) >>,  \* node keys
+                << VX(LNot(y)), VY(BNot(x)) >> }
+\* the same addition in both tiers (fuel 0: the small pools)
+Nest == \/ tree \in NestSkel(A, L, M, K2) /\ sg \in SigmasQ \cup KindSigmas /\ fuel = 0
+        \/ tree \in Skel(x, x, y, y) \cup NestSkel(x, x, y, x) /\ sg \in KindSigmas /\ fuel = 0
+
 \* ---- the state machine that enumerates ------------------------------------------------
 RandSkel == { s \in Skel(Rn, Rn, Rn, Rn) : s.t \notin {"Subst", "Deriv"} } \cup
             { N("Sum", << Rn, Rn, Rn >>), Call(Rn, << Rn, Rn >>), IfE(Rn, Rn, Rn),
@@ -171,10 +212,11 @@ RandSkel == { s \in Skel(Rn, Rn, Rn, Rn) : s.t \notin {"Subst", "Deriv"} } \cup
 RandPool == IF fuel > 0 THEN RandSkel \cup LeavesT ELSE LeavesT \cup D1Q \cup D1T
 
 \* exh mode: fuel only selects the pools (0: small, 1: big)
-Init == IF Mode = "exh" /\ Tier = "quick" THEN tree \in Roots(FALSE) /\ sg \in SigmasQ /\ fuel = 0
+Init == IF Mode = "exh" /\ Tier = "quick" THEN ((tree \in Roots(FALSE) /\ sg \in SigmasQ /\ fuel = 0) \/ Nest)
         ELSE IF Mode = "exh" THEN \/ tree \in Roots(FALSE) /\ sg \in SigmasT /\ fuel = 0
                                   \/ tree \in Roots(TRUE) /\ sg \in SigmasBig /\ fuel = 1
-        ELSE tree = Rn /\ sg \in SigmasT /\ fuel \in {2, 3, 4, 5}
+                                  \/ Nest
+        ELSE tree = Rn /\ sg \in SigmasT \cup KindSigmas /\ fuel \in {2, 3, 4, 5}
 Next == /\ NHoles(tree) > 0
         /\ UNCHANGED sg
         /\ IF Mode = "exh"
@@ -196,6 +238,8 @@ SubstB(e, s) ==
        THEN (IF HitB(mapped, s) # 0 THEN s[HitB(mapped, s)].val ELSE mapped)
        ELSE IF h # 0 THEN (IF Bug = "recursive" THEN Subst(s[h].val, s) ELSE s[h].val)
        ELSE IF Bug = "skipkw" /\ e.t = "CallKw" THEN [mapped EXCEPT !.kw = e.kw]
+       \* "k(k(a)) is a" applied to every unary kind when the node is rebuilt (exact for ~, wrong for not)
+       ELSE IF Bug = "collapse" /\ e.t \in UnKinds /\ mapped # e /\ mapped.a.t = e.t THEN mapped.a.a
        ELSE IF Bug = "skipslice" /\ e.t = "Slice" THEN e
        ELSE mapped
 SubstUT(e, s) ==
